@@ -175,13 +175,16 @@ def _s_chordal(tier):
                                      "perturbed"]))
         case = dict(part="chordal", A=A, mode=mode)
         if mode == "indep":
-            case["B"] = draw(_matdesc(m, n, kmax, cplx=A["cplx"]))
+            # (one basis may be real and the other complex)
+            case["B"] = draw(_matdesc(m, n, kmax, cplx=draw(st.sampled_from(
+                [A["cplx"], A["cplx"], not A["cplx"]]))))
         elif mode == "perturbed":
             case["eps_exp"] = draw(fl(-8.0, -1.0))
             case["pseed"] = draw(seeds)
         # change of basis (kappa(T) <= 100) for A and for B, common rotation
         case["T1"] = draw(_matdesc(n, n, 2.0, cplx=A["cplx"]))
-        case["T2"] = draw(_matdesc(n, n, 2.0, cplx=A["cplx"]))
+        case["T2"] = draw(_matdesc(n, n, 2.0, cplx=draw(st.sampled_from(
+            [A["cplx"], A["cplx"], not A["cplx"]]))))
         case["rot_seed"] = draw(seeds)
         return case
     return s()
@@ -193,6 +196,8 @@ def _s_gmd(tier):
         m = draw(_DIM)
         n = draw(st.one_of(st.just(m), _DIM))
         return dict(part="gmd",
+                    scale_exp=draw(st.sampled_from([0, 0, 0, -30, -18, -9,
+                                                    12])),
                     A=draw(_matdesc(m, n, _kmax(tier, "gmd"))),
                     tol_mode=draw(st.sampled_from(["default", "default",
                                                    "below_min"])))
@@ -250,7 +255,9 @@ def _s_invupd(tier):
     def s(draw):
         R = draw(_hpd(_kmax(tier, "invupd")))
         n = R["n"]
-        dpos = st.floats(-3.0, 3.0).map(lambda e: float(10.0 ** e))
+        dpos = st.one_of(st.floats(-3.0, 3.0), st.floats(-3.0, 3.0),
+                         st.floats(-12.0, -3.0)).map(
+                             lambda e: float(10.0 ** e))
         dmode = draw(st.sampled_from(["generic", "generic", "mu_ones",
                                       "zeros", "some_zero"]))
         if dmode == "generic":
@@ -265,7 +272,10 @@ def _s_invupd(tier):
         return dict(part="invupd", R=R, d=d, dmode=dmode,
                     skew=draw(st.sampled_from([0.0, 0.0, 0.3, 1.0])),
                     skew_seed=draw(seeds),
-                    d_rel=draw(st.booleans()))
+                    d_rel=draw(st.booleans()),
+                    # A and d in other units (one common factor)
+                    scale_exp=draw(st.sampled_from(
+                        [0, 0, 0, 0, -30, -16, -9, 9, 16])))
     return s()
 
 
@@ -289,6 +299,7 @@ def _s_selectors(tier):
             n = draw(st.one_of(st.just(m), _DIM, st.integers(1, m)))
             case["A"] = draw(_matdesc(m, n, kmax))
             case["k"] = draw(_count(n if kind == "lrsv" else min(m, n)))
+        case["scale_exp"] = draw(st.sampled_from([0, 0, 0, -30, -16, -13, 13]))
         return case
     return s()
 
@@ -632,6 +643,10 @@ def _check_gmd(case, ctx):
               "gmd:sv_" + gap, "gmd:tol_" + case["tol_mode"])
     ctx.nontrivial((max(m, n) >= 3 and cplx) or (p >= 2 and gap != "distinct"))
 
+    se = int(case.get("scale_exp", 0))
+    if se:
+        A = A * 10.0 ** se
+        ctx.label("gmd:scaled_1e%d" % se)
     # calling convention of the library (mimo.GMDMimo) and of its test
     U, S, V_H = np.linalg.svd(A)
     if case["tol_mode"] == "default":
@@ -714,6 +729,10 @@ def _check_invupd(case, ctx):
     if case["d_rel"]:
         d = d * float(ev.max())                  # update comparable to A
     assert d.shape == (n,) and np.all(d >= 0)
+    se = int(case.get("scale_exp", 0))
+    if se:
+        A, d, ev = A * 10.0 ** se, d * 10.0 ** se, ev * 10.0 ** se
+        ctx.label("invupd:scaled_1e%d" % se)
     tags = dict(part="invupd", n=n, cplx=cplx, dmode=case["dmode"],
                 hermitian=(skew == 0.0))
     B = A + np.diag(d)
@@ -752,6 +771,10 @@ def _check_eigsel(case, ctx):
     from pyphysim.util import misc
     kind = case["kind"]
     R, ev = _build_hpd(case["R"])
+    se = int(case.get("scale_exp", 0))
+    if se:
+        R, ev = R * 10.0 ** se, ev * 10.0 ** se
+        ctx.label(kind + ":scaled_1e%d" % se)
     n = R.shape[0]
     cplx = bool(case["R"]["cplx"])
     nz = min(int(case.get("n_zero", 0)), n - 1)
@@ -808,6 +831,10 @@ def _check_eigsel(case, ctx):
 def _check_lrsv(case, ctx):
     from pyphysim.util import misc
     A, _, s, _ = _build_mat(case["A"])
+    se = int(case.get("scale_exp", 0))
+    if se:
+        A, s = A * 10.0 ** se, s * 10.0 ** se
+        ctx.label("lrsv:scaled_1e%d" % se)
     m, n = A.shape
     k = int(case["k"])
     cplx = bool(case["A"]["cplx"])
@@ -861,6 +888,10 @@ def _check_lrsv(case, ctx):
 def _check_pcm(case, ctx):
     from pyphysim.util import misc
     A, _, s, _ = _build_mat(case["A"])
+    se = int(case.get("scale_exp", 0))
+    if se:
+        A, s = A * 10.0 ** se, s * 10.0 ** se
+        ctx.label("pcm:scaled_1e%d" % se)
     m, n = A.shape
     p = min(m, n)
     k = int(case["k"])
